@@ -183,6 +183,7 @@ func (rn *runner) judge(progs []*Prog, br *BatchResult, shrinkPass bool) {
 		opComplete(c, p, io)
 		if io.Exit != -1 {
 			nsEffect(c, p, io)
+			tyEffect(c, p, io)
 		}
 		if rn.explore != nil && os.Getenv("C16_ONLY") != "" {
 			fmt.Fprintf(rn.explore, "OBS %s %v same=%v\n  compiled: %s\n  interp:   %s\n", p.Name, p.Tags, co.Same(io), co, io)
